@@ -858,6 +858,13 @@ impl ProcessEvent<RoutingEvent> for RoutingThread {
                 buffer,
             } => {
                 debug!("block received : {:?}", block_hash.to_hex());
+                // this peer has answered: its request is not in flight any more, whatever becomes of the
+                // buffer below (a reply that is dropped must not hold a slot of the peer's quota for ever).
+                // the buffer has not been looked at yet: whether the block has arrived is for the
+                // verification to say, and what other peers announced stays queued until the chain reports
+                // the block
+                self.blockchain_sync_state
+                    .remove_entry_of_peer(block_hash, peer_index);
                 {
                     let mut peers = self.network.peer_lock.write().await;
                     let peer = peers.find_peer_by_index_mut(peer_index)?;
@@ -880,12 +887,6 @@ impl ProcessEvent<RoutingEvent> for RoutingThread {
                     buffer, peer_index, block_hash, block_id,
                 ))
                 .await;
-
-                // the buffer has not been looked at yet: this peer has answered, but whether the block has
-                // arrived is for the verification to say. what other peers announced stays queued until the
-                // chain reports the block
-                self.blockchain_sync_state
-                    .remove_entry_of_peer(block_hash, peer_index);
 
                 self.fetch_next_blocks().await;
 
